@@ -114,9 +114,14 @@ def m_divmod(ex, st, args, kwargs, node):
     raise Unsupported('np.divmod pattern')
 
 
+_orig_argmax = M.FUNCS.get('np.argmax')
+
+
 @model('np.argmax')
 def m_argmax(ex, st, args, kwargs, node):
     v = st.deref(args[0])
+    if isinstance(v, (VList, VTuple)) and _orig_argmax is not None:
+        return _orig_argmax(ex, st, args, kwargs, node)
     if isinstance(v, VArr) and v.ndim == 1 and not kwargs:
         used('np.argmax(v) -> a position in [0, len v)  (requires a non-empty vector)')
         ex.oblige(st, 'call-pre', 'argmax-of-non-empty', Z(v.shape[0]) >= 1, node)
